@@ -329,6 +329,17 @@ func (x *Exec) invoke(bc *blockCtx, in ssa.Instruction, recv *Val, m *types.Func
 				bc.st.heaps[hk] = x.b.Fresh(hk+"_after_"+shortFn(key), x.heapSorts[hk])
 			}
 		}
+	} else if mc != nil && mc.Assigns != "" {
+		// declared effects only
+		sig := m.Type().(*types.Signature)
+		pre = bc.st.clone()
+		for _, k := range strings.Fields(strings.ReplaceAll(mc.Assigns, ",", " ")) {
+			x.registerGhost(k)
+			hk := x.resolveHeapName(&CEnv{x: x, st: bc.st, pkg: x.prog.pkgOfFile(mc.File)}, k)
+			bc.st.heaps[hk] = x.b.Fresh(hk+"_after_"+shortFn(key), x.heapSorts[hk])
+		}
+		res = x.havocCall(bc, sig, key, false)
+		x.note("interface method with a trusted effect contract: " + key)
 	} else {
 		x.note("interface method treated as havoc (not declared pure): " + key)
 		sig := m.Type().(*types.Signature)
@@ -615,13 +626,52 @@ func (x *Exec) copyOp(bc *blockCtx, args []*Val) *Val {
 	n := x.b.Ite(x.b.Cmp("<", x.sLen(dst), x.sLen(src)), x.sLen(dst), x.sLen(src))
 	old := x.sel(h, x.sRef(dst), arrSort)
 	srcArr := x.sel(h, x.sRef(src), arrSort)
+	if n.IntV != nil && n.IntV.IsInt64() && n.IntV.Int64() <= 16 && x.sOff(dst).IntV != nil && x.sOff(src).IntV != nil {
+		// small constant copy: explicit element stores (memmove semantics: all
+		// source elements are read before any is written)
+		nwc := old
+		do, so := x.sOff(dst).IntV.Int64(), x.sOff(src).IntV.Int64()
+		for k := int64(0); k < n.IntV.Int64(); k++ {
+			nwc = x.sto(nwc, x.b.Int(do+k), x.sel(srcArr, x.b.Int(so+k), es))
+		}
+		bc.st.heaps[key] = x.sto(h, x.sRef(dst), nwc)
+		x.copyWriteThrough(bc, dst, nwc, key, es, arrSort)
+		return &Val{Typ: types.Typ[types.Int], T: n}
+	}
 	nw := x.b.Fresh("copied", arrSort)
 	i := x.b.BoundVar("ci", "Int")
 	inRange := x.b.And(x.b.Cmp("<=", x.sOff(dst), i), x.b.Cmp("<", i, x.b.Add(x.sOff(dst), n)))
 	x.assume(bc.reach, x.b.Quant("forall", []*smt.Term{i},
 		x.b.Eq(x.sel(nw, i, es), x.b.Ite(inRange, x.sel(srcArr, x.b.Add(x.sOff(src), x.b.Sub(i, x.sOff(dst))), es), x.sel(old, i, es)))))
 	bc.st.heaps[key] = x.sto(h, x.sRef(dst), nw)
+	x.copyWriteThrough(bc, dst, nw, key, es, arrSort)
 	return &Val{Typ: types.Typ[types.Int], T: n}
+}
+
+// copyWriteThrough: a copy into a view of a struct-embedded array is written through.
+func (x *Exec) copyWriteThrough(bc *blockCtx, dst, nw *smt.Term, key, es, arrSort string) {
+	if len(x.views) > 0 {
+		dr := x.sRef(dst)
+		v, isView := x.views[dr.ID]
+		if !isView && !(x.freshSet[dr.ID] || x.oldSet[dr.ID]) {
+			panic(unsupported("copy into a slice that may be a view of a struct-embedded array"))
+		}
+		if isView {
+			// write the new contents through to the array the view was taken from
+			at := v.arrTyp.Underlying().(*types.Array)
+			elems := make([]*smt.Term, at.Len())
+			for k := range elems {
+				elems[k] = x.sel(nw, x.b.Int(int64(k)), es)
+			}
+			x.storeLoc(bc.st, v.loc, x.mkArray(v.arrTyp, elems))
+			// other views of the same array are stale now: their contents become unknown
+			for id, o := range x.views {
+				if id != dr.ID && sameLoc(o.loc, v.loc) {
+					bc.st.heaps[key] = x.sto(x.getHeap(bc.st, key), o.ref, x.b.Fresh("staleview", arrSort))
+				}
+			}
+		}
+	}
 }
 
 // ---------------------------------------------------------------------
@@ -947,6 +997,13 @@ func (x *Exec) inlinable(f *ssa.Function) bool {
 // registerGhost declares ghost state: G_calls is the per-function-value call
 // counter, every other G_<name> is an integer ghost variable.
 func (x *Exec) registerGhost(k string) {
+	if strings.HasPrefix(k, "GA_") {
+		// ghost array of integers (e.g. a byte stream)
+		if _, ok := x.heapSorts[k]; !ok {
+			x.heapSorts[k] = "(Array Int Int)"
+		}
+		return
+	}
 	if !strings.HasPrefix(k, "G_") {
 		return
 	}
